@@ -10,7 +10,10 @@ import FluteModel.ToiWire
     drop <h> | dropt <h>                         -> ok
     dropmany <h1> <h2> …  (concurrent drops)     -> ok
     add <k> | addfail <k>                        -> toi <v> | ERR
+    addc <k>           (object with carousel_mode: survives its transfers until removed) -> toi <v>
     addx <k> <h> | addxfail <k> <h>              -> toi <v> | ERR
+    addforeign <k> <v> (object carrying a handle reserved on ANOTHER sender started at v) -> ERR
+    addnoq <k>         (add_object on a priority queue that does not exist)                -> ERR
     remove <k>                                   -> true | false
     start <k>                                    -> wire <toi read back> <O> <H> <field hex>
     drain                                        -> done <tois…> | done -
@@ -109,7 +112,7 @@ def freerun (s : Sys) (tsi n : Nat) : Option (Sys × String) :=
   let rec adds (s : Sys) (acc : List Nat) : List Nat → Option (Sys × List Nat)
     | [] => some (s, acc)
     | k :: r =>
-      match s.step (.add k true) with
+      match s.step (.add k true false) with
       | .ok (s', .toi v, _) => adds s' (v :: acc) r
       | _ => none
   let rec fins (s : Sys) : List Nat → Option Sys
@@ -178,16 +181,26 @@ def step (st : St) (args : List String) : St × String :=
       | none => (st, "bad-op")
     | none => (st, "bad-op")
   | ["add", k] => match nat? k with
-    | some k => runOp st (.add k true)
+    | some k => runOp st (.add k true false)
+    | none => (st, "bad-op")
+  | ["addc", k] => match nat? k with
+    | some k => runOp st (.add k true true)
     | none => (st, "bad-op")
   | ["addfail", k] => match nat? k with
-    | some k => runOp st (.add k false)
+    | some k => runOp st (.add k false false)
     | none => (st, "bad-op")
   | ["addx", k, h] => match nat? k, nat? h with
     | some k, some h => runOp st (.addWith k h true)
     | _, _ => (st, "bad-op")
   | ["addxfail", k, h] => match nat? k, nat? h with
     | some k, some h => runOp st (.addWith k h false)
+    | _, _ => (st, "bad-op")
+  | ["addforeign", k, v] => match st.sys, nat? k, nat? v with
+    | some s, some k, some v =>
+      if v < 2 ^ 128 ∧ (s.objs.find? k).isNone then runOp st (.addEarlyErr k) else (st, "bad-op")
+    | _, _, _ => (st, "bad-op")
+  | ["addnoq", k] => match st.sys, nat? k with
+    | some s, some k => if (s.objs.find? k).isNone then runOp st (.addEarlyErr k) else (st, "bad-op")
     | _, _ => (st, "bad-op")
   | ["remove", k] => match nat? k with
     | some k => runOp st (.remove k)
